@@ -33,6 +33,8 @@ const REPLY_MUTS: &[&str] = &[
 	"proof_raddr_rand",
 	"proof_saddr_rand",
 	"proof_sig_other",
+	"proof_resign_other",
+	"proof_resign_other",
 	"amount_plus",
 	"amount_minus",
 	"part_key_rand",
